@@ -33,3 +33,14 @@ Theorem C13_restore : forall ovs kcs,
   fst (override_keys ovs kcs) = kcs.
 Proof. exact restore_when_no_combination. Qed.
 Print Assumptions C13_restore.
+
+(* every key of the list is looked up: a non-modifier key whose combination is present among the modifiers listed before it is
+   substituted wherever it stands in the list and whatever other keys were substituted before it (two overridden keys held at once
+   are both replaced) *)
+Theorem C13_every_matching_key_is_substituted : forall ovs pre k post o,
+  mask_for_key k = None ->
+  ov_pick (filter (fun o' => ov_in_nm o' =? k) ovs) (mods_of pre 0) 0 None = Some o ->
+  In (ov_out_nm o) (fst (ov_scan ovs (pre ++ k :: post) 0 [] [])) /\
+  In (ov_in_nm o) (snd (ov_scan ovs (pre ++ k :: post) 0 [] [])).
+Proof. exact every_matching_key_is_substituted. Qed.
+Print Assumptions C13_every_matching_key_is_substituted.
